@@ -2,6 +2,8 @@ package main
 
 import (
 	"bytes"
+	"crypto/sha256"
+	"encoding/binary"
 	"errors"
 	"fmt"
 
@@ -181,6 +183,51 @@ func init() {
 	}
 	register("multimult", multi(false))
 	register("multimult.vartime", multi(true))
+	// multimult.chain n k seed rcv vartime: a long list built inside the server -- points (k+i)*G by repeated
+	// addition, scalars SHA-256(seed || i) -- so that tens of thousands of terms cost a few bytes on the
+	// wire; rcv is the index of the list element used as the receiver (0xffffffff: a fresh point).
+	register("multimult.chain", func(args [][]byte) (func() func() [][]byte, error) {
+		if err := need(args, 5); err != nil {
+			return nil, err
+		}
+		if len(args[0]) != 4 || len(args[3]) != 4 || len(args[4]) != 1 {
+			return nil, fmt.Errorf("bad argument sizes")
+		}
+		n := int(binary.BigEndian.Uint32(args[0]))
+		rcv := binary.BigEndian.Uint32(args[3])
+		k, err := sc(args[1])
+		if err != nil {
+			return nil, err
+		}
+		if n < 1 || n > 1<<17 {
+			return nil, fmt.Errorf("bad length")
+		}
+		points := make([]*secp256k1.Point, n)
+		scalars := make([]*secp256k1.Scalar, n)
+		cur := secp256k1.NewIdentityPoint().ScalarBaseMult(k)
+		g := secp256k1.NewGeneratorPoint()
+		var ctr [4]byte
+		for i := 0; i < n; i++ {
+			points[i] = secp256k1.NewPointFrom(cur)
+			cur.Add(cur, g)
+			binary.BigEndian.PutUint32(ctr[:], uint32(i))
+			h := sha256.Sum256(append(append([]byte(nil), args[2]...), ctr[:]...))
+			scalars[i], _ = secp256k1.NewScalarFromBytes(&h)
+		}
+		r := secp256k1.NewIdentityPoint()
+		if rcv != 0xffffffff {
+			r = points[int(rcv)%n]
+		}
+		vartime := args[4][0] != 0
+		return func() func() [][]byte {
+			if vartime {
+				r.MultiScalarMultVartime(scalars, points)
+			} else {
+				r.MultiScalarMult(scalars, points)
+			}
+			return func() [][]byte { return [][]byte{r.UncompressedBytes()} }
+		}, nil
+	})
 	register("doublemult.vartime", func(args [][]byte) (func() func() [][]byte, error) {
 		if err := need(args, 3); err != nil {
 			return nil, err
